@@ -6,6 +6,7 @@ package models
 
 import (
 	"encoding/hex"
+	"go/types"
 	"math/big"
 	"strings"
 
@@ -95,6 +96,10 @@ func (s *Set) Apply(cfg *absint.Config) {
 // ---------------------------------------------------------------- helpers
 
 func ptrArg(ex *absint.Exec, c *absint.CallCtx, i int) *absint.Ptr {
+	if i >= len(c.Args) {
+		ex.Failf("%s: no argument %d (the routine's signature differs from the one its specification was written for)", c.Name, i)
+		return nil
+	}
 	v := c.St.Resolve(c.Args[i])
 	p, ok := v.(*absint.Ptr)
 	if !ok {
@@ -354,6 +359,17 @@ func ring(s *Set, recv string, srt sym.Sort) {
 	}
 	m("Bytes", bytesOf)
 	m("getBytes", func(ex *absint.Exec, c *absint.CallCtx) (absint.Val, bool) {
+		if len(c.Args) == 1 && c.Fn != nil && c.Fn.Signature.Results().Len() == 1 {
+			// the encoding returned as an array by value
+			if at, ok := c.Fn.Signature.Results().At(0).Type().Underlying().(*types.Array); ok && at.Len() == 32 {
+				b := ToBytes(srt, loadAbs(ex, c, 0, srt))
+				a := &absint.Agg{Typ: c.Fn.Signature.Results().At(0).Type(), Elems: make([]absint.Val, 32)}
+				for k := range a.Elems {
+					a.Elems[k] = absint.ByteAt(b, sym.ConstI(int64(k)))
+				}
+				return a, true
+			}
+		}
 		dst := ptrArg(ex, c, 1)
 		if dst == nil {
 			return nil, false
